@@ -280,6 +280,37 @@ func enlargeArgs(args []any, salt int) []any {
 	return out
 }
 
+// sameStarOtherTail: two statements whose generated-columns output starts with the same `&P.*` and goes
+// on differently are prepared one after the other: the first still sends its own columns.
+func sameStarOtherTail(viol func(prop, name, q, detail string)) {
+	tails := [][2]string{{"&Address.id", "&Person.name"}, {"&Person.id, &Address.street", "&Address.id, &Person.name"}, {"&Address.*", "&Person.*"}}
+	for _, n := range goodStructs {
+		if n == "Person" || n == "Address" {
+			continue
+		}
+		sample := zooByName(n)
+		for _, tl := range tails {
+			q1 := "SELECT (*) AS (&" + n + ".*, " + tl[0] + ") FROM t"
+			q2 := "SELECT (*) AS (&" + n + ".*, " + tl[1] + ") FROM t"
+			s1, err := sqlair.Prepare(q1, sample, Person{}, Address{})
+			if err != nil {
+				continue
+			}
+			ref := runOnce(s1, nil)
+			if s2, err := sqlair.Prepare(q2, sample, Person{}, Address{}); err == nil {
+				runOnce(s2, nil)
+			}
+			if got := runOnce(s1, nil); got != ref {
+				d := "when new: " + trunc(ref, 250) + "  after preparing " + q2 + ": " + trunc(got, 250)
+				for _, p := range []string{"C05", "C16", "C17", "C01"} {
+					viol(p, "statement-sends-something-else-after-other-statements-were-prepared", q1, d)
+				}
+				return
+			}
+		}
+	}
+}
+
 // wideInsertTwice: an INSERT of a struct with 70 optional columns is run twice on one Statement with as many
 // omitted columns, but other ones, among the columns beyond the 64th (and among the first ones): the second
 // run sends what a fresh Statement sends.
@@ -440,6 +471,7 @@ func cmdDeterm(args []string) int {
 	st := determStats{Results: map[string]int{}}
 	st.FirstUse = firstUseConcurrent(viol2)
 	wideInsertTwice(viol2)
+	sameStarOtherTail(viol2)
 	var prevQ, prevA1 string
 	var prevSamples, prevArgs []any
 	for st.Cases < *n {
@@ -684,6 +716,7 @@ func cmdDeterm(args []string) int {
 				viol("concurrent-prepare-differs", c.query, bad)
 				viol2("C07", "concurrent-prepare-differs", c.query, bad)
 				viol2("C01", "concurrent-prepare-differs", c.query, bad)
+				viol2("C05", "concurrent-prepare-differs", c.query, bad)
 			}
 		}
 		caseStart.Store(0)
